@@ -204,7 +204,10 @@ Proof.
 Defined.
 
 Lemma sized_lru_clear_forgets : clear_forgets (sized_lru_ops c0) sized_lru_laws.
-Proof. unfold sized_lru_laws. apply spec_clear_forgets. Qed.
+Proof.
+  intros s k Hi. change (cinv s) in Hi. change (Peek (purge s) k = None).
+  destruct (purge_refines s Hi) as [H1 [_ H3]]. rewrite (Peek_refines _ k H1), H3. reflexivity.
+Qed.
 
 (** what the instance's ghost map and invariant are, by computation *)
 Lemma sized_lru_may s k : cl_may _ sized_lru_laws s k = Peek s k.
@@ -245,7 +248,10 @@ Proof.
 Defined.
 
 Lemma plain_lru_clear_forgets : clear_forgets (plain_lru_ops c0) plain_lru_laws.
-Proof. unfold plain_lru_laws. apply spec_clear_forgets. Qed.
+Proof.
+  intros s k Hi. change (sinv s) in Hi. change (s_Peek (s_Purge s) k = None).
+  destruct (s_Purge_refines s Hi) as [H1 [_ H3]]. rewrite (s_Peek_refines _ k H1), H3. reflexivity.
+Qed.
 
 Lemma plain_lru_may s k : cl_may _ plain_lru_laws s k = s_Peek s k.
 Proof. reflexivity. Qed.
@@ -306,16 +312,20 @@ Proof.
     rewrite <- H3. pose proof (sp_get_ret (lparams s) (labs s) k) as Hr. rewrite <- H3 in Hr. cbn [snd] in Hr.
     rewrite Hr. reflexivity.
   - intros s k Hi. destruct (step_refines' s (OpHas k) Hi) as [_ [_ H3]]. cbn [sp_step] in H3.
-    inversion H3 as [[Ha Hr]]. reflexivity.
+    apply (f_equal snd) in H3. cbn [snd] in H3. rewrite H3. reflexivity.
   - intros s k Hi. destruct (step_refines' s (OpRemove k) Hi) as [H1 [_ H3]]. cbn [sp_step] in H3.
-    inversion H3 as [[Ha Hr]]. split; [exact H1|reflexivity].
+    apply (f_equal fst) in H3. cbn [fst] in H3. split; [exact H1|exact H3].
   - intros s Hi. destruct (step_refines' s OpClear Hi) as [H1 [_ H3]]. cbn [sp_step] in H3.
-    inversion H3 as [[Ha Hr]]. split; [exact H1|reflexivity].
+    apply (f_equal fst) in H3. cbn [fst] in H3. split; [exact H1|exact H3].
   - intros s k Hi. apply b_Peek_refines. exact Hi.
 Defined.
 
 Lemma lcache_clear_forgets : clear_forgets (lcache_ops c0) lcache_laws.
-Proof. unfold lcache_laws. apply spec_clear_forgets. Qed.
+Proof.
+  intros s k Hi. change (linv s) in Hi. change (b_Peek (be (lc_state (step s OpClear))) k = None).
+  destruct (step_refines' s OpClear Hi) as [H1 [_ H3]]. cbn [sp_step] in H3. apply (f_equal fst) in H3. cbn [fst] in H3.
+  rewrite (b_Peek_refines _ k H1), H3. reflexivity.
+Qed.
 
 Lemma lcache_may s k : cl_may _ lcache_laws s k = b_Peek (be s) k.
 Proof. reflexivity. Qed.
